@@ -241,6 +241,17 @@ prop(
     explanation="",
 )
 
+prop(
+    "C16",
+    contract_modules=["contracts.c16"],
+    bcc="c16",
+    level="other",
+    claimed=False,
+    trusted=["numpy.object-arrays"],
+    assumptions=["compute_distances returns the (minimum-image) distance of each requested pair, in the order requested (contract of C05)"],
+    explanation="",
+)
+
 # ---- stubs (filled in as the contracts are written) -------------------------------------------
 _BOUNDED_TEXT = ("Bounded contract check only at this commit: the property's contracts are evaluated at run time on the real code over the "
                  "enumerated input space stated in evidence (coverage.bounded); labelled bounded, nothing is counted as proved. "
